@@ -54,7 +54,12 @@ type Shard struct {
 const (
 	kDeploy   = "deploy"
 	kTeardown = "teardown"
-	hostName  = "App.Example.COM" // mixed case on purpose: the hostname service lower-cases
+	// hostnames vary across manifest versions (mixed case on purpose: the hostname service lower-cases):
+	// v1 {www, api}, v2 drops api, v3 adds new. The unchanged manager reserves the list of the manifest it
+	// was created with, once, and releases that same list when it ends.
+	hostWWW   = "WWW.Example.COM"
+	hostAPI   = "Api.Example.com"
+	hostNew   = "new.example.com"
 	groupName = "g"
 	svcName   = "web"
 )
@@ -91,7 +96,8 @@ type probe struct {
 	pending      int
 	active       int
 	statusErr    string
-	hostErr      string // "" = hostnames can be reserved by another deployment
+	hostErr      string   // "" = every hostname of every manifest version can be reserved by another deployment
+	stuck        []string // hostnames the hostname service still holds (its own table) when hostErr != ""
 }
 
 // inst is the per-execution state.
@@ -127,6 +133,7 @@ type inst struct {
 	pr              probe
 	svcDone         bool
 	setupDone       bool
+	reserved        []string        // hostnames the hostname service held for the deployment when the first cluster call started
 	tdch            <-chan struct{} // teardownch of the lease's manager (identity only), set by the first cluster call
 	tdAcceptedAtEnd int             // teardown requests the manager had accepted at the settled point
 }
@@ -158,7 +165,29 @@ func nodeUnits() atypes.ResourceUnits {
 	}
 }
 
-// mgroup builds manifest version v of the lease's group: same shape, distinct image.
+var allHosts = []string{hostWWW, hostAPI, hostNew}
+
+func hostsOf(v int) []string {
+	switch v {
+	case 1:
+		return []string{hostWWW, hostAPI}
+	case 2:
+		return []string{hostWWW}
+	default:
+		return []string{hostWWW, hostNew}
+	}
+}
+
+func inList(xs []string, x string) bool {
+	for _, y := range xs {
+		if strings.EqualFold(x, y) {
+			return true
+		}
+	}
+	return false
+}
+
+// mgroup builds manifest version v of the lease's group: same shape, distinct image, own hostname set.
 func mgroup(v int) manifest.Group {
 	return manifest.Group{
 		Name: groupName,
@@ -168,7 +197,7 @@ func mgroup(v int) manifest.Group {
 			Resources: units(),
 			Count:     1,
 			Expose: []manifest.ServiceExpose{{
-				Port: 80, Proto: manifest.TCP, Global: true, Hosts: []string{hostName},
+				Port: 80, Proto: manifest.TCP, Global: true, Hosts: hostsOf(v),
 			}},
 		}},
 	}
@@ -259,11 +288,32 @@ func (h *inst) begin(kind string, lid mtypes.LeaseID, version int) *call {
 	}
 	c.tdAccepted = vs.RecvCountNow(h.tdch)
 	c.resAtStart = cluster.VerifC14ReservationCount(h.svc)
-	c.hostAtStart = cluster.VerifC14HostnameInUse(h.svc, hostName)
+	if len(h.calls) == 0 {
+		// what the hostname service itself holds for the deployment when the manager issues its first
+		// operation: the set that must stay reserved while operations are in flight (hostnames of later
+		// manifests are never reserved by the unchanged manager, so they are not demanded)
+		h.reserved = cluster.VerifC14HostnamesInUse(h.svc)
+		sort.Strings(h.reserved)
+	}
+	c.hostAtStart = h.reservedHeld()
 	vs.Note(kind, c.seq, version, strings.Join(c.activeAtStart, ","), c.resAtStart, c.hostAtStart)
 	h.calls = append(h.calls, c)
 	h.active = append(h.active, c)
 	return c
+}
+
+// reservedHeld: the hostname service still holds every hostname it held at the first operation (and
+// it held at least one).
+func (h *inst) reservedHeld() bool {
+	if len(h.reserved) == 0 {
+		return false
+	}
+	for _, x := range h.reserved {
+		if !cluster.VerifC14HostnameInUse(h.svc, x) {
+			return false
+		}
+	}
+	return true
 }
 
 func (h *inst) end(c *call, res string) {
@@ -274,7 +324,7 @@ func (h *inst) end(c *call, res string) {
 		}
 	}
 	c.resAtEnd = cluster.VerifC14ReservationCount(h.svc)
-	c.hostAtEnd = cluster.VerifC14HostnameInUse(h.svc, hostName)
+	c.hostAtEnd = h.reservedHeld()
 	vs.Note("end", c.seq, c.resAtEnd, c.hostAtEnd)
 	c.result = res
 }
@@ -533,7 +583,14 @@ func (h *inst) obligations() {
 					due("reservation-not-released-after-close", "the lease closed and teardown completed, but the inventory still holds %d pending + %d active reservation(s) (managers: %d)", h.pr.pending, h.pr.active, h.pr.leases)
 				}
 				if h.pr.hostErr != "" {
-					due("hostnames-not-released-after-close", "the lease closed and teardown completed, but the lease's hostname is still reserved: %s", h.pr.hostErr)
+					sig := "hostnames-not-released-after-close"
+					for _, x := range h.pr.stuck {
+						if !inList(hostsOf(h.published), x) {
+							sig += ":dropped-by-later-manifest"
+							break
+						}
+					}
+					due(sig, "the lease closed and teardown completed, but hostname(s) %v are still registered to the deployment (reserved at the first operation: %v; hostnames of the last manifest v%d: %v): %s", h.pr.stuck, h.reserved, h.published, hostsOf(h.published), h.pr.hostErr)
 				}
 			}
 		}
@@ -566,8 +623,10 @@ func (h *inst) probe() {
 		}
 	}
 	other := dtypes.DeploymentID{Owner: h.lease.Owner, DSeq: h.lease.DSeq + 1}
-	if err := vs.Recv(h.svc.HostnameService().CanReserveHostnames([]string{hostName}, other)); err != nil {
+	if err := vs.Recv(h.svc.HostnameService().CanReserveHostnames(allHosts, other)); err != nil {
 		h.pr.hostErr = err.Error()
+		h.pr.stuck = cluster.VerifC14HostnamesInUse(h.svc)
+		sort.Strings(h.pr.stuck)
 	}
 	h.pr.ended = true
 }
@@ -650,7 +709,7 @@ func (h *inst) check(r *vs.Result) (string, []string) {
 			bad("reservation-released-"+what, "when %s %s the inventory no longer held the lease's reservation (reservation count %d at start, %d at return)", c.id(), when, c.resAtStart, c.resAtEnd)
 		}
 		if !c.hostAtStart || (c.result != "" && !c.hostAtEnd) {
-			bad("hostnames-released-"+what, "%s: the lease's hostname was not reserved any more (reserved at start: %v, at return: %v)", c.id(), c.hostAtStart, c.hostAtEnd)
+			bad("hostnames-released-"+what, "%s: the hostnames reserved for the deployment (%v) were not all held any more (held at start: %v, at return: %v)", c.id(), h.reserved, c.hostAtStart, c.hostAtEnd)
 		}
 	}
 	viol = append(viol, h.due...)
